@@ -149,6 +149,11 @@ func zzC18(nSettings int, small bool) {
 			s.Spec.Reference = &autoscalingv1.CrossVersionObjectReference{Kind: "ExtendedDaemonset", Name: "foo"}
 			hasRef[j] = true
 		}
+		// what an earlier reconcile left in the status of the first setting (a conflict or an error whose
+		// cause may be gone by now) must not stick
+		if j == 0 && nondet.Bool(l+".previouslyInError") {
+			s.Status = datadoghqv1alpha1.ExtendedDaemonsetSettingStatus{Status: datadoghqv1alpha1.ExtendedDaemonsetSettingStatusError, Error: "conflict with another ExtendedDaemonsetSetting: gone"}
+		}
 		c.Settings = append(c.Settings, s)
 	}
 	// a setting of another namespace never interferes
